@@ -134,6 +134,7 @@ func paramsLine(p corePoint) string {
 // ---------------------------------------------------------------------------------------------
 
 type paramsScript struct {
+	lastWithdrawOK bool
 	*coreScript
 	pt       corePoint
 	monStart int
@@ -282,6 +283,14 @@ func (c *paramsScript) depositI(m *coreMarket, who int, amount sdkmath.Int) {
 func (c *paramsScript) withdrawI(m *coreMarket, who int, idx uint64, mode int, amount sdkmath.Int) {
 	tk := c.e.Ticket(0, map[string]interface{}{"kyc_data": kycIgnore()})
 	c.out.Op("HW %d 1 1 0 999999 %d %d %d %s 0", who, m.n, idx, mode, amount)
+	pre := captureHouse(c.e, 0, who, 1, m.uid, idx)
+	defer func() {
+		// the C09 monitors of a successful withdrawal (payee, bound, exact partial amount, count): feed ledgers_sound
+		if c.lastWithdrawOK {
+			withdrawMonitor(c.out, c.h, c.e, c.ix, pre, who, 0, m.uid, idx)
+		}
+	}()
+	c.lastWithdrawOK = false
 	err, _ := c.e.Tx(func(ctx sdk.Context) error {
 		msg := &housetypes.MsgWithdraw{Creator: c.e.Accts[who].String(), MarketUID: m.uid, ParticipationIndex: idx,
 			Mode: housetypes.WithdrawalMode(mode), Amount: amount, Ticket: tk}
@@ -294,6 +303,7 @@ func (c *paramsScript) withdrawI(m *coreMarket, who int, idx uint64, mode int, a
 	c.out.Count("op.withdraw")
 	if err == nil {
 		c.out.Count("op.withdraw.ok")
+		c.lastWithdrawOK = true
 	}
 	c.txDone("withdraw", err)
 }
@@ -415,6 +425,7 @@ func paramsCoreHistory(out *Out, h int, pt corePoint) {
 		c.withdrawI(m, 1, 1, 2, sdkmath.OneInt()) // MaxWithdrawalCount
 	}
 	c.withdrawI(m, 2, 2, 1, sdkmath.ZeroInt())
+	c.withdrawI(m, 1, 1, 1, sdkmath.ZeroInt()) // full-mode withdrawal after partial ones by the same depositor (needs MaxWithdrawalCount >= 2)
 	c.endBlockC17()
 	c.resolve(m, 5, 0)
 	c.resolve(m2, 3, 0)
